@@ -34,6 +34,7 @@ type Interp struct {
 	maxDepth int
 	hook     *workCollector
 	dispatchSw *ast.SwitchStmt
+	scratch  map[string]bool // []byte receiver fields used as truncate-then-append scratch buffers
 	constCache map[ast.Expr]Val
 	tableID  map[string]int
 	cls      *byteClasses
@@ -361,10 +362,14 @@ func (in *Interp) execAssign(s *ast.AssignStmt, st *State) []Exit {
 			for _, s2 := range states {
 				// stack updates are recognised on the syntactic form
 				if sts, ok := in.stackAssign(l, s.Rhs[i], s2); ok {
+					for _, x := range sts {
+						x.markAssigned(in.fieldPath(l, x))
+					}
 					next = append(next, sts...)
 					continue
 				}
 				in.noteKeyPush(l, s.Rhs[i], s2)
+				in.scratchAssign(l, s.Rhs[i], s2)
 				next = append(next, in.assignTo(l, c.vs[i], s2, s.Pos())...)
 			}
 			states = next
@@ -557,6 +562,7 @@ func (in *Interp) assignTo(lhs ast.Expr, v Val, st *State, pos token.Pos) []*Sta
 			// store through something else: evaluate the base for effects only
 			return []*State{st}
 		}
+		st.markAssigned(f)
 		if in.stackFld[f] {
 			in.undecide(pos, "container stack %s assigned a value of unrecognised form", f)
 			return nil
@@ -1454,4 +1460,60 @@ func (s *State) remAtMost(n int) bool {
 		s.remHi = n
 	}
 	return true
+}
+
+func (s *State) markAssigned(f string) {
+	if f == "" {
+		return
+	}
+	if s.assigned == nil {
+		s.assigned = map[string]bool{}
+	}
+	s.assigned[f] = true
+}
+
+// scratchAssign follows the truncate / append / consume typestate of scratch
+// byte buffers (e.g. the token accumulator): appending to a buffer whose
+// content was already consumed (or is left over from a previous call) without
+// truncating it first prepends stale bytes to the next token.
+func (in *Interp) scratchAssign(lhs, rhs ast.Expr, st *State) {
+	f := in.fieldPath(lhs, st)
+	if f == "" || !in.scratch[f] {
+		return
+	}
+	switch r := rhs.(type) {
+	case *ast.SliceExpr:
+		if in.fieldPath(r.X, st) == f && r.High != nil && isZeroLit(r.High) && (r.Low == nil || isZeroLit(r.Low)) {
+			delete(st.garbage, f)
+			return
+		}
+	case *ast.CallExpr:
+		if id, ok := r.Fun.(*ast.Ident); ok {
+			switch id.Name {
+			case "append":
+				if len(r.Args) >= 1 && in.fieldPath(r.Args[0], st) == f {
+					if st.garbage[f] {
+						st.notes = append(st.notes, "scratch-append-stale:"+f+":"+in.prog.Pos(rhs.Pos()))
+					}
+					return
+				}
+			case "make":
+				delete(st.garbage, f)
+				return
+			}
+		}
+	}
+}
+
+// scratchConsume marks a scratch buffer as consumed when it is converted to a
+// string-like value (the token is complete).
+func (in *Interp) scratchConsume(arg ast.Expr, st *State) {
+	f := in.fieldPath(arg, st)
+	if f == "" || !in.scratch[f] {
+		return
+	}
+	if st.garbage == nil {
+		st.garbage = map[string]bool{}
+	}
+	st.garbage[f] = true
 }
